@@ -235,3 +235,108 @@ func firstDiffIdx(a, b []byte) int {
 	}
 	return -1
 }
+
+// subLongStream: ONE CipherReader and ONE CipherWriter carry a single stream of more than 2 GiB (a legal frame payload:
+// lengths go up to 2^63-1), fed from / drained into synthetic ends that hold no payload in memory; the first and last
+// 64 bytes of every chunk are compared with payload[i] XOR key[i mod 4] at their absolute stream position. Offsets
+// beyond 2^31 are where a running position kept in a narrower type, or folded back with the wrong modulus, goes wrong.
+type synthSrc struct{ pos int64 }
+
+func synthByte(i int64) byte { return byte(i*131 + i>>9*17 + 7) }
+
+func (s *synthSrc) Read(p []byte) (int, error) {
+	// (only the sampled borders need their true values; the middle is left as it is)
+	for k := 0; k < len(p) && k < 64; k++ {
+		p[k] = synthByte(s.pos + int64(k))
+	}
+	for k := len(p) - 64; k < len(p); k++ {
+		if k >= 0 {
+			p[k] = synthByte(s.pos + int64(k))
+		}
+	}
+	s.pos += int64(len(p))
+	return len(p), nil
+}
+
+type synthSink struct {
+	pos int64
+	key [4]byte
+	bad string
+}
+
+func (s *synthSink) Write(p []byte) (int, error) {
+	check := func(k int) {
+		i := s.pos + int64(k)
+		if want := synthByte(i) ^ s.key[i%4]; p[k] != want && s.bad == "" {
+			s.bad = fmt.Sprintf("stream position %d: got %#02x, want %#02x (plain %#02x XOR key[%d])", i, p[k], want, synthByte(i), i%4)
+		}
+	}
+	for k := 0; k < len(p) && k < 64; k++ {
+		check(k)
+	}
+	for k := len(p) - 64; k < len(p); k++ {
+		if k >= 64 {
+			check(k)
+		}
+	}
+	s.pos += int64(len(p))
+	return len(p), nil
+}
+
+func subLongStream() mon.Sub {
+	return mon.Sub{
+		Name: "long-stream", Required: true,
+		// (2 GiB through the race-instrumented cipher take about 25 s: the quick tier carries the reader's stream, the
+		// thorough tier the writer's as well)
+		N: func(t string) int {
+			if t == "thorough" {
+				return 2
+			}
+			return 1
+		},
+		Do: func(c *mon.C) {
+			key := [4]byte{0x1b, 0x2c, 0x3d, 0x4e}
+			const total = int64(1)<<31 + 6<<20
+			chunk := []int{1<<20 + 3, 1<<16 - 5}[c.I%2]
+			c.Count(1)
+			if c.I == 0 {
+				src := &synthSrc{}
+				cr := wsutil.NewCipherReader(src, key)
+				p := make([]byte, chunk)
+				for pos := int64(0); pos < total; {
+					n, err := cr.Read(p)
+					if err != nil || n != len(p) {
+						c.Fail("long-stream/reader/read", fmt.Sprintf("Read at stream position %d returned (%d, %v)", pos, n, err), nil)
+						return
+					}
+					for _, k := range []int{0, 1, 2, 3, 5, 63, n - 64, n - 3, n - 2, n - 1} {
+						i := pos + int64(k)
+						if want := synthByte(i) ^ key[i%4]; p[k] != want {
+							c.Fail("long-stream/reader/bytes", fmt.Sprintf("CipherReader at stream position %d (2^31 = 2147483648): got %#02x, want plain %#02x XOR key[%d] = %#02x", i, p[k], synthByte(i), i%4, want), map[string]interface{}{"chunk": chunk})
+							return
+						}
+					}
+					pos += int64(n)
+				}
+			} else {
+				sink := &synthSink{key: key}
+				cw := wsutil.NewCipherWriter(sink, key)
+				src := &synthSrc{}
+				p := make([]byte, chunk)
+				for pos := int64(0); pos < total; pos += int64(chunk) {
+					src.Read(p)
+					if n, err := cw.Write(p); err != nil || n != len(p) {
+						c.Fail("long-stream/writer/write", fmt.Sprintf("Write at stream position %d returned (%d, %v)", pos, n, err), nil)
+						return
+					}
+					if sink.bad != "" {
+						c.Fail("long-stream/writer/bytes", "CipherWriter: "+sink.bad, map[string]interface{}{"chunk": chunk})
+						return
+					}
+				}
+			}
+			c.Classf("long-stream|%d|chunk=%d", c.I, chunk)
+			c.Sample(map[string]interface{}{"bytes_through_one_cipher": total, "chunk": chunk, "which": []string{"CipherReader", "CipherWriter"}[c.I]})
+		},
+	}
+}
